@@ -69,6 +69,17 @@ class C08(Property):
                         cases.append(Case("%sp%d" % (gid, j), opts, gen.flatten(moved),
                                           tags={"role": "parent_right", "group": gid, "item": pieces[i].items}))
                         j += 1
+                # (6) "the items to its right are judged by the subcommand's own parser": the same items (short flags
+                #     clustered when possible) given to the subcommand's OptionParser on its own must be judged alike,
+                #     and its value is what the enclosing result contains
+                if cmd_ixs and pieces[cmd_ixs[0]].level == 0:
+                    from .C02 import C02
+                    ci = cmd_ixs[0]
+                    sub_argv, merged = C02.cluster(pieces[ci + 1:])
+                    sub_opts = pieces[ci].node["options"]
+                    cases.append(Case(gid + "sp", opts, gen.flatten(pieces[:ci + 1]) + sub_argv,
+                                      tags={"role": "sub_in_parent", "group": gid, "clustered": bool(merged)}))
+                    cases.append(Case(gid + "sa", sub_opts, sub_argv, tags={"role": "sub_alone", "group": gid}))
                 # (5) a second command name where none is expected (after the deepest level's items)
                 if cmd_ixs:
                     nm = pieces[cmd_ixs[0]].items[0]
@@ -83,10 +94,24 @@ class C08(Property):
                 out.append(Finding("disagree", c, r))
             if c.tags["role"] == "base":
                 base[c.tags["group"]] = c
+        subs = {}
+        for c in cases:
+            if c.tags["role"] in ("sub_in_parent", "sub_alone"):
+                subs.setdefault(c.tags["group"], {})[c.tags["role"]] = c
+        for gid, pr in subs.items():
+            if len(pr) != 2 or compare.impl_class(impl.get(base[gid].id)) != "OK":
+                continue
+            cp, ca = pr["sub_in_parent"], pr["sub_alone"]
+            ip, ia = common.impl_cv(impl.get(cp.id)), common.impl_cv(impl.get(ca.id))
+            nontrivial.append(cp.line())
+            if (ip[0] == "OK") != (ia[0] == "OK") or (ip[0] == "OK" and ia[1] not in ip[1]):
+                out.append(Finding("violation", cp, "the items right of the command name %r are judged %s by the subcommand's own parser "
+                                                    "run on them alone, but %s inside the enclosing parser"
+                                   % (ca.argv, common.show(impl.get(ca.id)), common.show(impl.get(cp.id))), related=[ca]))
         for c in cases:
             role = c.tags["role"]
             dist[role] = dist.get(role, 0) + 1
-            if role == "base":
+            if role in ("base", "sub_in_parent", "sub_alone"):
                 continue
             b = base[c.tags["group"]]
             b_ok = compare.impl_class(impl.get(b.id)) == "OK"
